@@ -12,7 +12,9 @@ files shrink / vanish / grow after the scan, output paths are obstructed.
 Oracle on the real return values and output tree.
 """
 import vlib
+import os
 import transfer_common as tc
+import e2e_common
 
 PROP = "C02"
 
@@ -22,13 +24,21 @@ def run(tier, seed):
     mc = tc.model_check(tier, faults=True)
     neg = tc.negative_controls(['CountFailed'])
     stride, shards, budget = (4, 8, '100s') if tier == "quick" else (1, 14, '20m')
-    res = vlib.run_vh_sharded(['xfer-faults', '-seed', str(seed), '-stride', str(stride), '-budget', budget], shards, timeout=3000)
+    work = vlib.scratch("c02-")
+    tp = os.path.join(work, "faulttrace")
+    res = vlib.run_vh_sharded(['xfer-faults', '-seed', str(seed), '-stride', str(stride), '-budget', budget, '-trace-out', tp], shards, timeout=3000)
     for viol in res['violations']:
         v.violation(viol['sig'], viol.get('replay'))
+    # the hook traces of the faulted transfers, validated with TLC against SessionTrace.tla
+    # (e.g. C02.finalize_ok_short: no file is finalized ok without every chunk written)
+    lines = e2e_common.collect(tp)
+    rules, tstats = e2e_common.validate(lines, work, "faults") if lines else ([], None)
+    e2e_common.report_rules(v, PROP, rules)
     v.coverage = dict(evaluations=res['behaviours'], distinct_nontrivial=res['distinct'],
                       rule="one real transfer per (fault kind, stream, direction, byte offset) / (frame, byte, bit) / (cancel side, byte count) / (source or sink fault, file); "
                            "non-trivial = the fault actually struck (position reached) or the case has no position",
-                      samples=res['samples'][:8], exhaustive=(stride == 1),
+                      samples=res['samples'][:8], exhaustive=(stride == 1), hook_traces_validated_by_tlc=tstats,
+                      transfers_not_traced=res['extra'].get('transfers_not_traced'),
                       by_kind=res['extra'].get('by_kind'), outcomes=res['extra'].get('outcomes'),
                       skipped_over_budget=res['extra'].get('skipped_over_budget'),
                       tlc=dict(states=mc['states'], transitions=mc['transitions'], runs=mc['runs'], negative_controls_refuted=neg))
